@@ -552,6 +552,7 @@ type FuncSpec struct {
 // CallReq: "exit require name: call F(args) as (r..) when COND then POST" (loop-free functions): on every path
 // on which COND holds at the exit, F was called exactly once and the call satisfies POST.
 type CallReq struct {
+	Forbid bool // exit forbid: when COND holds the call must NOT have happened
 	Name string
 	Pat  *EvPat
 	When *SExpr
@@ -1291,6 +1292,25 @@ func (sp *Specs) LoadFile(path, pkgRel string) error {
 			}
 		case "exit", "entry":
 			// exit row name: [events] when cond
+			if kw == "exit" && strings.HasPrefix(rest, "forbid ") {
+				tags, r := parseTags(strings.TrimPrefix(rest, "forbid "))
+				name, body := parseLabel(r)
+				iw := strings.Index(body, " when ")
+				if iw < 0 {
+					return fail(ln, fmt.Errorf("exit forbid name: call F(..) when COND"))
+				}
+				pat, err := parseEvPat(strings.TrimSpace(body[:iw]))
+				if err != nil {
+					return fail(ln, err)
+				}
+				we, err := ParseSpecExpr(strings.TrimSpace(body[iw+6:]))
+				if err != nil {
+					return fail(ln, err)
+				}
+				cur.CallReqs = append(cur.CallReqs, &CallReq{Forbid: true, Name: name, Pat: pat, When: we, Tags: tags, Text: "forbid " + body})
+				cur.Observe = append(cur.Observe, pat.Fn)
+				continue
+			}
 			if kw == "exit" && strings.HasPrefix(rest, "require ") {
 				tags, r := parseTags(strings.TrimPrefix(rest, "require "))
 				name, body := parseLabel(r)
